@@ -98,3 +98,58 @@ func vh_C18_cache() {
 		vAssert(!preloaded[u], "a document already present in the supplied cache is requested from the loader")
 	}
 }
+
+// a sub-schema that declares an id: it is held in memory under the URL its id designates; references
+// inside its scope are resolved against that URL and never make the loader fetch it
+func vh_C18_idscope() {
+	vUseURLSet(0)
+	id := []string{"types/address.json", "file:///w/types/address.json", "types/"}[vChoose(3, "id")]
+	inner := []string{"#/definitions/zip", "common.json#/definitions/country", "address.json#/definitions/zip"}[vChoose(3, "inner")]
+	if id == "types/" && inner == "address.json#/definitions/zip" {
+		return // a folder id names no file of its own
+	}
+	text := `{"type":"object","properties":{"address":{"id":"` + id + `","type":"object","definitions":{"zip":{"type":"string","description":"zip"}},` +
+		`"properties":{"one":{"$ref":"` + inner + `"},"two":{"$ref":"` + inner + `"}}}}}`
+	w := &vWorld{root: vURoot, docs: map[string]string{}}
+	w.docs[vURoot] = text
+	w.docs["file:///w/types/common.json"] = `{"definitions":{"country":{"type":"string","description":"country"}}}`
+	run := func(cache ResolutionCache) ([]byte, error, []string) {
+		var s Schema
+		if json.Unmarshal([]byte(text), &s) != nil {
+			return nil, nil, nil
+		}
+		w.loads = nil
+		err := ExpandSchemaWithBasePath(&s, cache, &ExpandOptions{RelativeBase: w.root, PathLoader: w.loader})
+		if err != nil {
+			return nil, err, w.loads
+		}
+		out, _ := json.Marshal(s)
+		return out, nil, w.loads
+	}
+	ref, rerr, log0 := run(nil)
+	if rerr != nil {
+		vNote("error: " + rerr.Error())
+	}
+	vAssert(rerr == nil, "a schema whose references stay inside the scope of its id (or name an existing sibling document) fails to expand")
+	vAssert(vLoadedAtMostOnce(log0), "without a cache: a document is requested from the loader more than once in one expansion")
+	for _, u := range log0 {
+		vAssert(u != "file:///w/types/address.json" && u != "file:///w/types/placeholder.json", "the loader is asked for the document an id merely names (the schema is held in memory)")
+	}
+	cache := &vCache{m: map[string]interface{}{}}
+	if vChoose(2, "cachestate") == 1 {
+		_, _, _ = run(cache) // reused
+	}
+	had := map[string]bool{}
+	for u := range cache.m {
+		had[u] = true
+	}
+	got, gerr, log1 := run(cache)
+	vAssert((rerr == nil) == (gerr == nil), "supplying a cache changes whether the expansion succeeds")
+	if rerr == nil && gerr == nil {
+		vAssert(vJSONBytesEq(ref, got), "supplying a cache changes the result of the expansion")
+	}
+	vAssert(vLoadedAtMostOnce(log1), "with a cache: a document is requested from the loader more than once in one expansion")
+	for _, u := range log1 {
+		vAssert(!had[u], "a document already present in the supplied cache is requested from the loader")
+	}
+}
